@@ -333,3 +333,23 @@ func checkC19(tier string) int {
 		jumps: true,
 	}, tier)
 }
+
+func checkC20(tier string) int {
+	return runSubsys(subsysCfg{
+		id:      "C20",
+		rule:    "seeded histories of create/update/sell/purchase/send/renew/delete-sub by owners and strangers on names and sub-names with short lifetimes (so that names expire within the history), purchases below/at/above the asking price, of expired names at the base price, price-option changes by governance; every block the decoded domain records are compared with the previous block's: each change of owner, beneficiary, sale status, price, address or sub-names must be backed by a successful transaction signed by the previous owner or by a purchase whose payload and ledger effects meet the asking (or base) price, every new or moved expiry by the number of blocks the payment buys under the option record in force before or after the block; a case is one block; non-trivial = a domain record changed; distinct by (seed, height, app hash)",
+		assume:  []string{"the height an expiry is counted from may be read as the previous or the current block (the code uses the last committed version)"},
+		scripts: []string{"ons", "governance", "transfers"},
+		nhQ:     8, nhT: 50, blQ: 48, blT: 150,
+		params: func(i int, hseed int64) world.Params {
+			return world.Params{Frankenstein: 1, NumGenesisVals: 4}
+		},
+		tune: func(cfg *drive.Cfg, i int) {
+			cfg.Honest = i%2 == 0 // the others let a byzantine proposer deliver the script's must-fail traffic
+		},
+		newMon: func(w *world.World) func(run *hist.Runner, blk *hist.Block) []mon.Finding {
+			return wrapStateful(mon.C20)
+		},
+		gates: map[string]int{"ok:DOMAIN_CREATE": 3, "ok:DOMAIN_PURCHASE": 1, "ok:DOMAIN_RENEW": 1, "ok:DOMAIN_SELL": 1, "ok:DOMAIN_UPDATE": 1},
+	}, tier)
+}
